@@ -410,7 +410,8 @@ func constantKey(selector *ArrayMapSelector) (reflect.Value, bool) {
 
 // mayAlias tells whether other may name the location that written names. Both have to address the same container.
 // Two selectors name the same element unless they are literals with different values, two member names never do,
-// and a member name and a selector do when the container is map-like (J.k and J["k"] of a JSON object).
+// and a member name and a selector do when the container is map-like and the selector may stand for that name
+// (J.k and J["k"] or J[F.Key] of a JSON object, not J["x"]).
 func mayAlias(written, other *Variable) bool {
 	if other.Variable != written.Variable {
 
@@ -430,8 +431,35 @@ func mayAlias(written, other *Variable) bool {
 
 		return false
 	}
+	if written.Variable.ValueNode != nil && !written.Variable.ValueNode.IsMap() {
 
-	return written.Variable.ValueNode == nil || written.Variable.ValueNode.IsMap()
+		return false
+	}
+	if written.ArrayMapSelector == nil {
+
+		return mayBeMember(other.ArrayMapSelector, written.Name)
+	}
+
+	return mayBeMember(written.ArrayMapSelector, other.Name)
+}
+
+// mayBeMember tells whether the selector may stand for the member of that name: any selector but a string literal
+// that is another name.
+func mayBeMember(selector *ArrayMapSelector, name string) bool {
+	key, isConstant := constantKey(selector)
+	if isConstant && key.IsValid() && key.Kind() == reflect.String {
+
+		return key.String() == name
+	}
+
+	return true
+}
+
+// hasOtherSpellings tells whether the location that v names can be spelled in another way on its own level: an
+// element by another selector, the member of a map-like node by a selector. The member of a struct has its name only.
+func hasOtherSpellings(v *Variable) bool {
+
+	return v.ArrayMapSelector != nil || v.Variable.ValueNode == nil || v.Variable.ValueNode.IsMap()
 }
 
 // containerSize returns the number of elements of an array or map node, 0 for a node that has no elements and
@@ -468,6 +496,9 @@ func (workingMem *WorkingMemory) ResetAliases(written *Variable, size int) {
 		workingMem.ResetVariable(written.Variable)
 	}
 	for v := written; v.Variable != nil; v = v.Variable {
+		if !hasOtherSpellings(v) {
+			continue
+		}
 		for _, other := range workingMem.variableSnapshotMap {
 			if other != v && mayAlias(v, other) {
 				workingMem.ResetVariable(other)
